@@ -311,6 +311,18 @@ let handle kind a =
         let mapped = List.map (eager_line (prs_of tab) utf8_valid h) (Model.lines_of raw) in
         if List.map show mapped <> List.map show calls then Some "MODEL-LOOP-DIFFERS-FROM-MAP" else
         Some (string_of_int (List.length calls) ^ ":" ^ String.concat "^" (List.map show calls))
+    | "lloop" ->
+        (* read_record until Ok(0) through one lazy Record, GOING ON after Err: one result per call *)
+        let h = hctx_of a.(0) a.(1) a.(2) a.(3) in
+        let tab = ftab a.(5) in
+        let raw = bytes_of_hex a.(4) in
+        let one x = match x with
+          | LCPanic -> "Panic" | LCErr -> "Err"
+          | LCRec (n, f, r) ->
+              string_of_int (int_of_nat n) ^ "|" ^ String.concat "," (List.map hex_of_bytes (lf_obs f))
+              ^ "|" ^ (match r with None -> "Err" | Some x -> rec_str x) in
+        let calls = lazy_call_list_std (prs_of tab) h raw in
+        Some (string_of_int (List.length calls) ^ ":" ^ String.concat "^" (List.map one calls))
     | "file" ->
         let hd = header_of a.(0) in
         let rs = if a.(1) = "~" then [] else List.map rec_of (split_on '^' a.(1)) in
